@@ -1,4 +1,4 @@
-(* Transport / Transports: order dependence (F7), determinism without conflicting keys, totality, round trip *)
+(* Transport / Transports (repaired code, /repo 5cae47d): determinism on every input, totality, round trip *)
 From Coq Require Import ZifyBool ZifyNat ZifyN Permutation.
 From GVL Require Import NList.
 From GV Require Import Res Str StrProofs KeyVal KeyValProofs HdrTransport HdrAuthProofs HdrSessionProofs.
@@ -25,72 +25,47 @@ Qed.
 Lemma classify_same k1 k2 c kk : classify k1 = c -> classify k2 = c -> class_key c = Some kk -> k1 = k2.
 Proof. intros H1 H2 Hc. rewrite (classify_key k1 c kk H1 Hc), (classify_key k2 c kk H2 Hc). reflexivity. Qed.
 
-(* two entries are compatible unless they name different profile/protocol pairs or both delivery methods *)
-Definition compat (a b : list N * list N) : bool :=
-  match classify (fst a), classify (fst b) with
-  | TProf p q, TProf p' q' => (p =? p') && (q =? q')
-  | TUnicast, TMulticast | TMulticast, TUnicast => false
-  | _, _ => true
-  end.
-Definition no_conflict (m : list (list N * list N)) : bool := forallb (fun a => forallb (compat a) m) m.
-
 Ltac same_class_contra :=
   match goal with
   | Ca : classify ?ka = ?c, Cb : classify ?kb = ?c, Hne : ?ka <> ?kb |- _ =>
     exfalso; apply Hne; eapply (classify_same ka kb c); [exact Ca|exact Cb|reflexivity]
   end.
 
-Lemma tstep_commute a b : fst a <> fst b -> compat a b = true -> commute tstep a b.
+Lemma tstep_commute a b : fst a <> fst b -> commute tstep a b.
 Proof.
-  intros Hne Hc [t pf]. destruct a as [ka va], b as [kb vb]. cbn [fst] in Hne. unfold compat in Hc. cbn [fst] in Hc.
-  unfold tstep, obind. destruct t as [f1 f2 f3 f4 f5 f6 f7 f8 f9 f10 f11 f12].
-  destruct (classify ka) eqn:Ca; destruct (classify kb) eqn:Cb; try same_class_contra; try discriminate Hc;
+  intros Hne [t [pf df]]. destruct a as [ka va], b as [kb vb]. cbn [fst] in Hne.
+  unfold tstep, obind. cbn [fst snd]. destruct t as [f1 f2 f3 f4 f5 f6 f7 f8 f9 f10 f11 f12].
+  destruct (classify ka) eqn:Ca; destruct (classify kb) eqn:Cb; try same_class_contra;
   repeat match goal with
   | |- context [parse_ports ?v] => destruct (parse_ports v)
   | |- context [parse_uint ?b ?v] => destruct (parse_uint b v)
   | |- context [parse_mode ?v] => destruct (parse_mode v)
   | |- context [parse_ssrc ?v] => destruct (parse_ssrc v)
   end;
-  cbn [option_map]; rewrite ?Ca, ?Cb; cbn [option_map];
-  try (destruct va; destruct vb); try reflexivity.
-  (* two profile keys naming the same pair *)
-  all: try (apply andb_true_iff in Hc as [H1 H2]; apply N.eqb_eq in H1, H2; subst; reflexivity).
+  cbn [option_map fst snd]; rewrite ?Ca, ?Cb; cbn [option_map fst snd];
+  try (destruct pf); try (destruct df); cbn [fst snd]; try (destruct va; destruct vb); try reflexivity.
 Qed.
 
-Definition transport_no_conflict (s : list N) : bool :=
-  match kv_parse s SEMI with Some m => no_conflict m | None => true end.
-
-Lemma no_conflict_in m a b : no_conflict m = true -> In a m -> In b m -> compat a b = true.
+(* F7 repaired: the result never depends on the iteration order *)
+Theorem transport_deterministic s o1 o2 :
+  is_perm o1 -> is_perm o2 -> transport_unmarshal_with o1 s = transport_unmarshal_with o2 s.
 Proof.
-  unfold no_conflict. intros H Ha Hb. rewrite forallb_forall in H. specialize (H a Ha).
-  rewrite forallb_forall in H. now apply H.
-Qed.
-
-(* F7, positive part: when no two keys conflict the result does not depend on the iteration order *)
-Theorem transport_deterministic_partial s o1 o2 :
-  is_perm o1 -> is_perm o2 -> transport_no_conflict s = true ->
-  transport_unmarshal_with o1 s = transport_unmarshal_with o2 s.
-Proof.
-  intros H1 H2 Hnc. unfold transport_unmarshal_with, transport_no_conflict in *.
+  intros H1 H2. unfold transport_unmarshal_with.
   destruct (kv_parse s SEMI) as [m|] eqn:E; [|reflexivity]. unfold tfold.
   rewrite (ofold_order_indep tstep m o1 o2 H1 H2 (kv_parse_keys _ _ _ E)); [reflexivity|].
-  intros a b Ha Hb Hne. apply tstep_commute; [exact Hne|]. now apply (no_conflict_in m).
+  intros a b _ _. apply tstep_commute.
 Qed.
 
-(* F7, negative part: "RTP/AVP;RTP/AVP/TCP" *)
+(* regression (old F7 witness "RTP/AVP;RTP/AVP/TCP"): now an error in both orders *)
 Definition f7_transport : list N := Eval vm_compute in K_RTP_AVP ++ [SEMI] ++ K_RTP_AVP_TCP.
-Theorem transport_deterministic_refuted :
-  exists s o1 o2, is_perm o1 /\ is_perm o2 /\ transport_unmarshal_with o1 s <> transport_unmarshal_with o2 s.
-Proof.
-  exists f7_transport, id_order, (@rev _). split; [apply id_is_perm|]. split; [apply rev_is_perm|].
-  vm_compute. discriminate.
-Qed.
+Example f7_transport_regression :
+  transport_unmarshal_with id_order f7_transport = Err /\ transport_unmarshal_with (@rev _) f7_transport = Err.
+Proof. split; vm_compute; reflexivity. Qed.
 
-(* whether an error is returned never depends on the order *)
 Theorem transport_total o s : transport_unmarshal_with o s <> Panic.
 Proof.
   unfold transport_unmarshal_with. destruct (kv_parse s SEMI); [|discriminate].
-  destruct (tfold _ _) as [[t [|]]|]; discriminate.
+  destruct (tfold _ _) as [[t [[|] df]]|]; discriminate.
 Qed.
 
 (* ---------- round trip ---------- *)
@@ -153,13 +128,13 @@ Lemma parse_mode_str m : m < 2 -> parse_mode (mode_str m) = Some m.
 Proof. intros H. assert (m = 0 \/ m = 1) as [-> | ->] by lia; reflexivity. Qed.
 
 (* single steps on the marshalled items *)
-Lemma tstep_profile t0 t pf : t_profile t0 < 2 -> t_protocol t0 < 2 ->
-  tstep (t, pf) (profile_key t0, []) = Some (set_prof (t_profile t0) (t_protocol t0) t, true).
+Lemma tstep_profile t0 t df : t_profile t0 < 2 -> t_protocol t0 < 2 ->
+  tstep (t, (false, df)) (profile_key t0, []) = Some (set_prof (t_profile t0) (t_protocol t0) t, (true, df)).
 Proof.
   intros H1 H2. assert (t_profile t0 = 0 \/ t_profile t0 = 1) as [E1|E1] by lia;
   assert (t_protocol t0 = 0 \/ t_protocol t0 = 1) as [E2|E2] by lia; unfold profile_key; rewrite E1, E2; reflexivity.
 Qed.
-Lemma tstep_delivery d t pf : d < 2 -> tstep (t, pf) (delivery_key d, []) = Some (set_delivery d t, pf).
+Lemma tstep_delivery d t pf : d < 2 -> tstep (t, (pf, false)) (delivery_key d, []) = Some (set_delivery d t, (pf, true)).
 Proof. intros H. assert (d = 0 \/ d = 1) as [-> | ->] by lia; reflexivity. Qed.
 Lemma tstep_source v t pf : negb (is_nil v) = true -> tstep (t, pf) (K_source, v) = Some (set_source v t, pf).
 Proof. intros H. destruct v; [discriminate|reflexivity]. Qed.
@@ -191,16 +166,22 @@ Proof.
   intros H. destruct o as [x|]; cbn [opt_it map ofold opt_apply]; [|reflexivity]. now rewrite (H x eq_refl).
 Qed.
 
+Definition is_some {A} (o : option A) : bool := match o with Some _ => true | None => false end.
+
 Lemma transport_fold_id t : wf_transport t = true ->
-  ofold tstep (transport0, false) (map item_kv (transport_kvitems t)) = Some (t, true).
+  ofold tstep (transport0, (false, false)) (map item_kv (transport_kvitems t)) = Some (t, (true, is_some (t_delivery t))).
 Proof.
   intros Hwf. unfold wf_transport in Hwf. rewrite !andb_true_iff in Hwf.
   destruct Hwf as [[[[[[[[[[[H1 H2] H3] H4] H5] H6] H7] H8] H9] H10] H11] H12].
   unfold transport_kvitems. rewrite !map_app. cbn [map]. unfold item_kv at 1. cbn [fst snd app ofold].
   rewrite tstep_profile by lia.
-  rewrite ofold_app, (ofold_opt (t_delivery t) _ set_delivery)
-    by (intros x E; unfold item_kv; cbn [fst snd]; rewrite E in H3; cbn [opt_all] in H3; apply tstep_delivery; lia).
-  cbn [obind].
+  rewrite ofold_app.
+  assert (Hdel : ofold tstep (set_prof (t_profile t) (t_protocol t) transport0, (true, false))
+                   (map item_kv (opt_it (t_delivery t) (fun d => (delivery_key d, VBare))))
+                 = Some (opt_apply (t_delivery t) set_delivery (set_prof (t_profile t) (t_protocol t) transport0), (true, is_some (t_delivery t)))).
+  { destruct (t_delivery t) as [d|]; cbn [opt_it map ofold opt_apply is_some]; [|reflexivity].
+    unfold item_kv. cbn [fst snd]. cbn [opt_all] in H3. rewrite tstep_delivery by lia. reflexivity. }
+  rewrite Hdel. cbn [obind].
   rewrite ofold_app, (ofold_opt (t_source t) _ set_source)
     by (intros x E; unfold item_kv; cbn [fst snd]; rewrite E in H4; cbn [opt_all] in H4; unfold val_ok in H4;
         apply andb_true_iff in H4 as [_ H4]; now apply tstep_source).
@@ -343,79 +324,17 @@ Proof.
   unfold tfold, id_order. now rewrite transport_fold_id.
 Qed.
 
-(* the marshalled form of a well-formed value has no conflicting keys *)
-Lemma compat_same_key a b : fst a = fst b -> compat a b = true.
-Proof. intros E. unfold compat. rewrite E. destruct (classify (fst b)); rewrite ?N.eqb_refl; reflexivity. Qed.
-
-Definition plain_class (c : tkey) : bool :=
-  match c with TProf _ _ | TUnicast | TMulticast | TOther => false | _ => true end.
-
-Lemma transport_item_classes t x : wf_transport t = true -> In x (map item_kv (transport_kvitems t)) ->
-  fst x = profile_key t \/ (exists d, t_delivery t = Some d /\ fst x = delivery_key d) \/ plain_class (classify (fst x)) = true.
-Proof.
-  intros Hwf Hin. unfold transport_kvitems in Hin. rewrite !map_app in Hin. rewrite !in_app_iff in Hin.
-  destruct Hin as [Hin|[Hin|Hin]].
-  - left. destruct Hin as [<-|[]]. reflexivity.
-  - right; left. destruct (t_delivery t) as [d|]; [|destruct Hin]. destruct Hin as [<-|[]]. now exists d.
-  - right; right.
-    repeat match type of Hin with
-    | _ \/ _ => destruct Hin as [Hin|Hin]
-    end;
-    match type of Hin with
-    | In _ (map item_kv (opt_it ?o _)) => destruct o; [destruct Hin as [<-|[]]; reflexivity|destruct Hin]
-    end.
-Qed.
-
-Lemma classify_profile_key t : t_profile t < 2 -> t_protocol t < 2 -> exists p q, classify (profile_key t) = TProf p q.
-Proof.
-  intros H1 H2. unfold profile_key.
-  assert (t_profile t = 0 \/ t_profile t = 1) as [E1|E1] by lia;
-  assert (t_protocol t = 0 \/ t_protocol t = 1) as [E2|E2] by lia; rewrite E1, E2; eexists _, _; reflexivity.
-Qed.
-Lemma classify_delivery_key d : d < 2 -> classify (delivery_key d) = TUnicast \/ classify (delivery_key d) = TMulticast.
-Proof. intros H. assert (d = 0 \/ d = 1) as [-> | ->] by lia; [left|right]; reflexivity. Qed.
-
-Lemma transport_marshal_no_conflict t : wf_transport t = true -> no_conflict (map item_kv (transport_kvitems t)) = true.
-Proof.
-  intros Hwf. unfold no_conflict. rewrite forallb_forall. intros a Ha. rewrite forallb_forall. intros b Hb.
-  pose proof (transport_item_classes t a Hwf Ha) as Ca. pose proof (transport_item_classes t b Hwf Hb) as Cb.
-  assert (Hwf' := Hwf). unfold wf_transport in Hwf'. rewrite !andb_true_iff in Hwf'.
-  destruct Hwf' as [[[[[[[[[[[H1 H2] H3] _] _] _] _] _] _] _] _] _].
-  destruct (classify_profile_key t) as (p & q & Hpq); [lia|lia|].
-  destruct Ca as [Ea|[(da & Eda & Ea)|Pa]]; destruct Cb as [Eb|[(db & Edb & Eb)|Pb]].
-  - apply compat_same_key. congruence.
-  - unfold compat. rewrite Ea, Eb, Hpq. rewrite Edb in H3. cbn [opt_all] in H3.
-    destruct (classify_delivery_key db) as [->| ->]; [lia|reflexivity|reflexivity].
-  - unfold compat. rewrite Ea, Hpq. destruct (classify (fst b)); try discriminate; reflexivity.
-  - unfold compat. rewrite Ea, Eb, Hpq. rewrite Eda in H3. cbn [opt_all] in H3.
-    destruct (classify_delivery_key da) as [->| ->]; [lia|reflexivity|reflexivity].
-  - apply compat_same_key. congruence.
-  - unfold compat. rewrite Ea. rewrite Eda in H3. cbn [opt_all] in H3.
-    destruct (classify_delivery_key da) as [->| ->]; [lia| |]; destruct (classify (fst b)); try discriminate; reflexivity.
-  - unfold compat. rewrite Eb, Hpq. destruct (classify (fst a)); try discriminate; reflexivity.
-  - unfold compat. rewrite Eb. rewrite Edb in H3. cbn [opt_all] in H3.
-    destruct (classify_delivery_key db) as [->| ->]; [lia| |]; destruct (classify (fst a)); try discriminate; reflexivity.
-  - unfold compat. destruct (classify (fst a)); try discriminate; destruct (classify (fst b)); try discriminate; reflexivity.
-Qed.
-
 Theorem transport_roundtrip t o : is_perm o -> wf_transport t = true -> transport_unmarshal_with o (transport_marshal t) = Ok t.
 Proof.
-  intros Ho Hwf. rewrite (transport_deterministic_partial _ o id_order Ho id_is_perm).
-  - now apply transport_roundtrip_id.
-  - unfold transport_no_conflict. rewrite transport_parse_marshal by exact Hwf. now apply transport_marshal_no_conflict.
+  intros Ho Hwf. rewrite (transport_deterministic _ o id_order Ho id_is_perm). now apply transport_roundtrip_id.
 Qed.
 
 (* ---------- Transports ---------- *)
-Definition transports_no_conflict (s : list N) : bool :=
-  forallb (fun part => transport_no_conflict (trim_left_sp part)) (split_on COMMA s).
-
-Theorem transports_deterministic_partial s o1 o2 :
-  is_perm o1 -> is_perm o2 -> transports_no_conflict s = true ->
-  transports_unmarshal_with o1 s = transports_unmarshal_with o2 s.
+Theorem transports_deterministic s o1 o2 :
+  is_perm o1 -> is_perm o2 -> transports_unmarshal_with o1 s = transports_unmarshal_with o2 s.
 Proof.
-  intros H1 H2 Hnc. unfold transports_unmarshal_with, transports_no_conflict in *. f_equal.
-  apply map_ext_in. intros p Hp. apply transport_deterministic_partial; try assumption.
-  rewrite forallb_forall in Hnc. now apply Hnc.
+  intros H1 H2. unfold transports_unmarshal_with. f_equal.
+  apply map_ext. intros p. now apply transport_deterministic.
 Qed.
 
 Theorem transports_total o s : transports_unmarshal_with o s <> Panic.
